@@ -115,7 +115,7 @@ func drawScalar32(t *rapid.T, label string) []byte {
 	}
 }
 
-// drawScalarAny draws a scalar of any length 0..72 bytes for the ScalarMult
+// drawScalarAny draws a scalar of any length 0..72 bytes (and 128, 255..257) for the ScalarMult
 // entry points, which consume every byte given.
 func drawScalarAny(t *rapid.T, label string) []byte {
 	switch rapid.IntRange(0, 5).Draw(t, label+"LenKind") {
@@ -125,7 +125,7 @@ func drawScalarAny(t *rapid.T, label string) []byte {
 		n := rapid.IntRange(0, 31).Draw(t, label+"Short")
 		return rapid.SliceOfN(rapid.Byte(), n, n).Draw(t, label+"ShortB")
 	case 4: // longer
-		n := rapid.SampledFrom([]int{33, 34, 40, 48, 63, 64, 65, 72}).Draw(t, label+"Long")
+		n := rapid.SampledFrom([]int{33, 34, 40, 48, 63, 64, 65, 72, 128, 255, 256, 257}).Draw(t, label+"Long")
 		return rapid.SliceOfN(rapid.Byte(), n, n).Draw(t, label+"LongB")
 	default: // a 32-byte scalar with zero bytes in front
 		z := rapid.IntRange(1, 8).Draw(t, label+"Pad")
@@ -188,5 +188,113 @@ func eqBytes(what string, got, want []byte) error {
 	if !bytes.Equal(got, want) {
 		return fmt.Errorf("%s:\n got  %x\n want %x", what, got, want)
 	}
+	return nil
+}
+
+// ---------------------------------------------------------------- slice arguments
+
+// Slice flavours for arguments handed to the library (carried explicitly in
+// the case, h.B serialises nil and empty alike):
+//
+//	0 private copy, len == cap
+//	1 nil            (zero length only, otherwise like 0)
+//	2 []byte{}       (zero length only, otherwise like 0)
+//	3 buf[:0] of a non-empty buffer (zero length only, otherwise like 0)
+//	4 spare capacity behind the data, filled with a sentinel that must survive
+const nFlavours = 5
+
+var flavourNames = []string{"exact", "nil", "empty-literal", "buf[:0]", "spare-capacity"}
+
+type sliceArg struct {
+	b       []byte // what is handed to the library
+	backing []byte
+	orig    []byte
+}
+
+const sentinel = 0xA5
+
+func mkArg(data []byte, flavour int) *sliceArg {
+	a := &sliceArg{orig: append([]byte{}, data...)}
+	switch {
+	case flavour == 4:
+		a.backing = make([]byte, len(data)+19)
+		for i := range a.backing {
+			a.backing[i] = sentinel
+		}
+		copy(a.backing, data)
+		a.b = a.backing[:len(data)]
+	case len(data) == 0 && flavour == 1:
+		a.b = nil
+	case len(data) == 0 && flavour == 2:
+		a.b = []byte{}
+	case len(data) == 0 && flavour == 3:
+		a.backing = []byte{sentinel, sentinel, sentinel, sentinel}
+		a.b = a.backing[:0]
+	default:
+		a.backing = append([]byte{}, data...)
+		a.b = a.backing[:len(data):len(data)]
+	}
+	return a
+}
+
+// intact: the library neither changed the argument nor wrote into its spare capacity.
+func (a *sliceArg) intact(what string) error {
+	if !bytes.Equal(a.b, a.orig) {
+		return fmt.Errorf("%s: the library modified its argument: %x -> %x", what, a.orig, a.b)
+	}
+	for i := len(a.orig); i < len(a.backing); i++ {
+		if a.backing[i] != sentinel {
+			return fmt.Errorf("%s: the library wrote into the spare capacity of its argument at offset +%d", what, i-len(a.orig))
+		}
+	}
+	return nil
+}
+
+// scribble overwrites the caller's memory after the call returned; nothing the
+// library produced may depend on it afterwards.
+func (a *sliceArg) scribble() { scribble(a.backing) }
+
+func scribble(b []byte) {
+	for i := range b {
+		b[i] = ^b[i] ^ byte(0x3c+i)
+	}
+}
+
+// held remembers slices the library returned, to verify later that further
+// library calls did not change them (no shared internal buffer).
+type held struct {
+	what string
+	b    []byte
+	want []byte
+}
+
+type holder []held
+
+func (hs *holder) keep(what string, b []byte) {
+	*hs = append(*hs, held{what, b, append([]byte{}, b...)})
+}
+
+func (hs holder) verify() error {
+	for _, x := range hs {
+		if !bytes.Equal(x.b, x.want) {
+			return fmt.Errorf("a slice returned earlier by %s changed under later library calls: %x -> %x", x.what, x.want, x.b)
+		}
+	}
+	return nil
+}
+
+// twice calls an encoder, compares, keeps the result for a later integrity
+// check, and calls it again after scribbling over a first result.
+func (hs *holder) twice(what string, f func() []byte, want []byte) error {
+	b0 := f()
+	if err := eqBytes(what, b0, want); err != nil {
+		return err
+	}
+	scribble(b0)
+	b1 := f()
+	if err := eqBytes(what+" (second call, after the first result was overwritten)", b1, want); err != nil {
+		return err
+	}
+	hs.keep(what, b1)
 	return nil
 }
